@@ -53,3 +53,75 @@ Proof.
   replace (List.length (values r0)) with (List.length r0) by (unfold values; now rewrite map_length).
   rewrite <- (Hkeys r Hr). apply row_to_record_rect. rewrite (Hkeys r Hr). apply positional_keys_nodup.
 Qed.
+
+(* ---------------------------------------------------------------- TSV without header line:
+   --headerless-tsv-output then --implicit-tsv-header (getRecordBatchImplicitTSVHeader), keys 1..n *)
+Definition wf_tsv_pos (recs : list record) : bool :=
+  match recs with
+  | [] => true
+  | r0 :: _ =>
+    negb (is_nil r0)
+    && forallb (fun r => list_beqb (keys r) (positional_keys (List.length r0)) && not_single_empty (values r)) recs
+  end.
+
+Lemma trim_right_crlf_clean s : nochar CR s = true -> nochar LF s = true -> trim_right_crlf s = s.
+Proof.
+  intros H1 H2. unfold trim_right_crlf. destruct (rev s) as [|c t] eqn:E.
+  - cbn. apply (f_equal (@rev ascii)) in E. rewrite rev_involutive in E. now subst.
+  - assert (Hin : In c s) by (apply in_rev; rewrite E; now left).
+    unfold nochar in *. rewrite forallb_forall in H1, H2.
+    specialize (H1 c Hin). specialize (H2 c Hin). apply negb_true_iff in H1, H2.
+    cbn [trim_right_crlf_rev]. rewrite H1, H2. cbn [orb]. rewrite <- E. apply rev_involutive.
+Qed.
+
+Lemma tsv_line_nil_inv vs : tsv_line vs = [] -> vs = [] \/ vs = [[]].
+Proof.
+  unfold tsv_line. intros E. apply join_nil_inv in E; [|discriminate].
+  destruct E as [E|E].
+  - left. destruct vs; [reflexivity|discriminate].
+  - right. destruct vs as [|x [|y t]]; try discriminate. cbn in E. injection E as E.
+    apply enc_simple_nil_inv in E. now subst.
+Qed.
+
+Lemma tsv_implicit_lines d rg n rs : forall hdr,
+  n <> 0 -> (hdr = None \/ hdr = Some (positional_keys n)) ->
+  forallb (fun r => list_beqb (keys r) (positional_keys n) && not_single_empty (values r)) rs = true ->
+  read_tsv_implicit_go d rg hdr (map (fun r => tsv_line (values r)) rs) = Some rs.
+Proof.
+  induction rs as [|r rs IH]; intros hdr Hn Hh H; [reflexivity|].
+  cbn [forallb] in H. apply andb_true_iff in H as [Hr H]. apply andb_true_iff in Hr as [Hk Hv].
+  apply list_beqb_eq in Hk.
+  assert (Hlen : List.length (values r) = n).
+  { unfold values. rewrite map_length. rewrite <- (map_length fst). fold (keys r). rewrite Hk.
+    unfold positional_keys. now rewrite map_length, seq_length. }
+  cbn [map read_tsv_implicit_go].
+  rewrite trim_right_crlf_clean by (apply tsv_line_clean; [auto|discriminate]).
+  assert (Hnn : is_nil (tsv_line (values r)) = false).
+  { destruct (tsv_line (values r)) eqn:El; [|reflexivity].
+    apply tsv_line_nil_inv in El as [El|El]; [rewrite El in Hlen; cbn in Hlen; congruence|rewrite El in Hv; discriminate]. }
+  rewrite Hnn.
+  assert (Hfs : List.length (split_string [TAB] (tsv_line (values r))) = n).
+  { rewrite <- (map_length tsv_decode). now rewrite tsv_line_split. }
+  assert (Hhs : match hdr with None => positional_keys (List.length (split_string [TAB] (tsv_line (values r)))) | Some h => h end = positional_keys n).
+  { destruct Hh as [-> | ->]; [now rewrite Hfs|reflexivity]. }
+  rewrite Hhs. rewrite tsv_line_split by assumption.
+  rewrite <- Hk. rewrite row_to_record_rect by (rewrite Hk; apply positional_keys_nodup).
+  rewrite Hk. rewrite IH; [reflexivity|assumption|now right|assumption].
+Qed.
+
+Lemma tsv_roundtrip_headerless crlf dedupe ragged recs :
+  wf_tsv_pos recs = true ->
+  obind (write_tsv true crlf recs) (read_tsv_implicit dedupe ragged) = Some recs.
+Proof.
+  unfold wf_tsv_pos. destruct recs as [|r0 rest]; [reflexivity|]. intros H.
+  apply andb_true_iff in H as [Hne Hall].
+  assert (Hrect : rect (r0 :: rest) = true).
+  { unfold rect. rewrite forallb_forall in *. intros r Hr.
+    pose proof (Hall r Hr) as H1. pose proof (Hall r0 (or_introl eq_refl)) as H0.
+    apply andb_true_iff in H1 as [H1 _]. apply andb_true_iff in H0 as [H0 _].
+    apply list_beqb_eq in H1, H0. rewrite H1, H0. apply list_beqb_refl. }
+  unfold write_tsv. rewrite (rows_of_rect r0 rest Hrect). cbn [orb is_nil obind app].
+  unfold read_tsv_implicit. rewrite lines_of_unlines.
+  2:{ rewrite map_map, forallb_map. apply forallb_true. intros r. apply tsv_line_ok. }
+  rewrite map_map. apply tsv_implicit_lines with (n := List.length r0); [destruct r0; [discriminate|discriminate]|now left|assumption].
+Qed.
